@@ -117,6 +117,8 @@ type Interp struct {
 	specDepth    int
 	specRoot     *ssa.BasicBlock
 	parRuns      []parRun
+	goThreads    []*ThreadTrace // go-statement mode: main thread + one trace per go statement
+	wgCount      map[string]int
 	randReplay   []Nondet
 	randPos      int
 	model        Model
@@ -605,6 +607,13 @@ func (in *Interp) lookupMethod(t types.Type, m *types.Func) *ssa.Function {
 func (in *Interp) callFn(fn *ssa.Function, args []Value, free []Value) (ret Value) {
 	if rd, ok := in.cfg.redirects[fn.String()]; ok {
 		fn = rd
+		if in.access != nil && in.access.cur != nil {
+			// a redirect target stands for library behaviour (e.g. the gob pass-through): its private bookkeeping
+			// is not memory of the program under test and stays out of the access traces
+			cur := in.access.cur
+			in.access.cur = nil
+			defer func() { in.access.cur = cur }()
+		}
 	}
 	if h, ok := intrinsics[fn.String()]; ok {
 		return h(in, fn, args)
@@ -803,7 +812,9 @@ func (in *Interp) exec(fr *frame, instr ssa.Instruction) {
 		f := in.prepareCall(fr, &x.Call, in.at(x))
 		fr.defers = append(fr.defers, func() { f() })
 	case *ssa.Go:
-		if in.cfg.GoInline {
+		if in.cfg.GoThreads {
+			in.goStmt(fr, x)
+		} else if in.cfg.GoInline {
 			in.ndSrc++
 			in.prepareCall(fr, &x.Call, in.at(x))()
 		} else {
@@ -878,7 +889,11 @@ func (in *Interp) exec(fr *frame, instr ssa.Instruction) {
 		fr.env[x] = in.makeSlice(et, n, c)
 	case *ssa.MakeChan:
 		in.nobj++
-		fr.env[x] = &ChanV{id: in.nobj, closed: in.tb.fls}
+		sz := in.term(in.get(fr, x.Size), "make(chan)")
+		if !sz.IsConst() {
+			sz = in.tb.Int(int64(in.concretize(sz, "channel capacity")))
+		}
+		fr.env[x] = &ChanV{id: in.nobj, closed: in.tb.fls, cap: int(sz.i)}
 	case *ssa.MakeClosure:
 		cl := &Closure{fn: x.Fn.(*ssa.Function)}
 		for _, b := range x.Bindings {
@@ -906,7 +921,21 @@ func (in *Interp) exec(fr *frame, instr ssa.Instruction) {
 	case *ssa.Select:
 		fr.env[x] = in.selectOp(fr, x)
 	case *ssa.Send:
-		in.unsupported("channel send at %s", in.at(x))
+		ch, _ := in.get(fr, x.Chan).(*ChanV)
+		if ch == nil || !in.cfg.GoThreads {
+			in.unsupported("channel send at %s", in.at(x))
+		}
+		if ch.closed.IsConst() && ch.closed.b {
+			in.goPanic("send on closed channel at %s", in.at(x))
+		}
+		if len(ch.buf) >= ch.cap {
+			in.unsupported("channel send beyond the capacity would block (threads run to completion) at %s", in.at(x))
+		}
+		ch.buf = append(ch.buf, copyVal(in.get(fr, x.X)))
+		if in.access != nil {
+			in.access.syncEvent("chsend", fmt.Sprintf("chan%d", ch.id), in.at(x), ch.sent)
+		}
+		ch.sent++
 	case *ssa.DebugRef:
 	case *ssa.SliceToArrayPointer:
 		in.unsupported("slice to array pointer")
@@ -962,7 +991,22 @@ func (in *Interp) unop(fr *frame, x *ssa.UnOp) Value {
 		if ch == nil {
 			in.unsupported("receive from nil/unknown channel at %s", in.at(x))
 		}
+		if len(ch.buf) > 0 {
+			v := ch.buf[0]
+			ch.buf = ch.buf[1:]
+			if in.access != nil {
+				in.access.syncEvent("chrecv", fmt.Sprintf("chan%d", ch.id), in.at(x), ch.rcvd)
+			}
+			ch.rcvd++
+			if x.CommaOk {
+				return Tuple{v, in.tb.tru}
+			}
+			return v
+		}
 		c := in.pollChan(ch)
+		if in.access != nil && c.IsConst() && c.b {
+			in.access.syncEvent("chrecv", fmt.Sprintf("chan%d", ch.id), in.at(x), -1)
+		}
 		if in.branch(c) {
 			zv := in.zero(x.X.Type().Underlying().(*types.Chan).Elem())
 			if x.CommaOk {
@@ -1633,6 +1677,9 @@ func (in *Interp) builtin(b *ssa.Builtin, args []Value, c *ssa.CallCommon, site 
 	case "close":
 		if ch, ok := args[0].(*ChanV); ok && ch != nil {
 			ch.closed = in.tb.tru
+			if in.access != nil {
+				in.access.syncEvent("chclose", fmt.Sprintf("chan%d", ch.id), site, 0)
+			}
 			return nil
 		}
 	case "min", "max":
